@@ -453,6 +453,9 @@ impl Universe {
         // a 34-byte p2wsh
         let a = Address::p2wsh(&ScriptBuf::from(vec![0x51u8]), NETWORK);
         scripts.push(Scr { script: a.script_pubkey(), kind: Kind::Foreign(2), addr: Some(a.to_string()) });
+        // somebody else's taproot output
+        let a = Address::p2tr(secp, make_test_pubkey(44).x_only_public_key().0, None, NETWORK);
+        scripts.push(Scr { script: a.script_pubkey(), kind: Kind::Foreign(3), addr: Some(a.to_string()) });
         let a = Address::p2wpkh(&make_test_bitcoin_pubkey(50), NETWORK);
         scripts.push(Scr { script: a.script_pubkey(), kind: Kind::Counterparty, addr: Some(a.to_string()) });
         scripts.push(Scr { script: ScriptBuf::new(), kind: Kind::Odd("empty"), addr: None });
@@ -471,6 +474,8 @@ impl Universe {
         }
         let a = Address::p2wsh(&ScriptBuf::from(vec![0x51u8]), NETWORK);
         v.push(Scr { script: a.script_pubkey(), kind: Kind::Foreign(2), addr: Some(a.to_string()) });
+        let a = Address::p2tr(secp, make_test_pubkey(44).x_only_public_key().0, None, NETWORK);
+        v.push(Scr { script: a.script_pubkey(), kind: Kind::Foreign(3), addr: Some(a.to_string()) });
         let xprv = Xpriv::new_master(NETWORK, &[0x51u8; 32]).expect("xprv");
         (v, format!("xpub:{}", Xpub::from_priv(secp, &xprv)))
     }
@@ -1825,20 +1830,33 @@ fn run(args: &Args) {
         ft[0] = rng.below(256) as u8;
         ft[31] = rng.below(256) as u8;
         setup.funding_outpoint = OutPoint { txid: Txid::from_slice(&ft).unwrap(), vout: *rng.pick(&[0u32, 0, 1, 2, 65535]) };
-        match rng.below(10) {
-            0 | 1 => {
-                let w = sys.uni.by_kind(|k| *k == Kind::Wallet(7, "p2wpkh"))[0].script.clone();
-                setup.holder_shutdown_script = Some(w);
-                shutdown_path = vec![7];
+        // the upfront shutdown script, in every form a SetupChannel message can carry: none, wallet p2wpkh / p2sh-p2wpkh /
+        // p2tr, somebody else's p2wpkh / p2wsh / p2tr - allowlisted first (the handler knows no wallet path for it, so
+        // over the wire only an allowlisted script is accepted) or not
+        let upfront_form: &'static str;
+        {
+            let pos = |k: Kind| sys.uni.scripts.iter().position(|s| s.kind == k).unwrap();
+            let (idx, form, wallet): (Option<usize>, &'static str, bool) = match rng.below(20) {
+                0 | 1 => (Some(pos(Kind::Wallet(7, "p2wpkh"))), "wallet-p2wpkh", true),
+                2 | 3 | 4 => (Some(pos(Kind::Wallet(7, "p2tr"))), "wallet-p2tr", true),
+                5 => (Some(pos(Kind::Wallet(7, "p2sh-p2wpkh"))), "wallet-p2sh-p2wpkh", true),
+                6 | 7 => (Some(foreign0), "foreign-p2wpkh", false),
+                8 => (Some(foreign2), "foreign-p2wsh", false),
+                9 | 10 | 11 => (Some(pos(Kind::Foreign(3))), "foreign-p2tr", false),
+                _ => (None, "none", false),
+            };
+            upfront_form = form;
+            if let Some(i) = idx {
+                // wallet scripts: allowlisted as well in 2 of 3 channels; other people's: in 5 of 6
+                let allow_it = if wallet { rng.chance(2, 3) } else { rng.chance(5, 6) };
+                if allow_it && !sys.uni.allow.contains(sys.uni.scripts[i].script.as_bytes()) {
+                    events.push(sys.allow_edit(true, i));
+                }
+                setup.holder_shutdown_script = Some(sys.uni.scripts[i].script.clone());
+                if wallet {
+                    shutdown_path = vec![7];
+                }
             }
-            2 | 3 if sys.uni.allow.len() > 0 => {
-                setup.holder_shutdown_script = Some(sys.uni.scripts[foreign0].script.clone());
-            }
-            4 => {
-                // somebody else's script, not allowlisted: must be refused
-                setup.holder_shutdown_script = Some(sys.uni.scripts[foreign2].script.clone());
-            }
-            _ => {}
         }
         // half of the channels are set up by a SetupChannel message through the protocol handler
         let mut setup_ok = false;
@@ -1849,8 +1867,9 @@ fn run(args: &Args) {
                 (None, 0) => Some(1),
                 (None, _) => None,
             };
-            let (ok, rec) = sys.setup_channel_wire(setup.clone(), idx, &mut rng);
-            *drive_stats.entry(format!("SetupChannel-message:{}", if ok { "accepted" } else { "refused" })).or_insert(0) += 1;
+            let (ok, mut rec) = sys.setup_channel_wire(setup.clone(), idx, &mut rng);
+            rec["upfront_form"] = json!(upfront_form);
+            *drive_stats.entry(format!("SetupChannel-message:{}:{}", upfront_form, if ok { "accepted" } else { "refused" })).or_insert(0) += 1;
             emit("SETUP", rec);
             setup_ok = ok;
         }
